@@ -71,12 +71,27 @@ impl<F: Fn(pipe::SimplexDirection, usize) + Send + Sync> LeftPipe<F> {
             }
 
             let datagram_len = datagram.payload.len();
-            match self.sink.write(datagram).await? {
-                datagram_pipe::SendStatus::Sent => {
+            let meta = forwarder::UdpDatagramMeta::from(&datagram.meta);
+            match self.sink.write(datagram).await {
+                Ok(datagram_pipe::SendStatus::Sent) => {
                     (self.shared.update_metrics)(self.direction, datagram_len);
                 }
-                datagram_pipe::SendStatus::Dropped => {
+                Ok(datagram_pipe::SendStatus::Dropped) => {
                     log_id!(trace, self.source.id(), "--> Datagram dropped")
+                }
+                Err(e) => {
+                    // an error on one UDP "connection" must not terminate the other ones
+                    log_id!(
+                        debug,
+                        self.source.id(),
+                        "--> Closing UDP connection due to error: meta={:?}, error={}",
+                        meta,
+                        e
+                    );
+                    self.shared.udp_connections.lock().unwrap().remove(&meta);
+                    self.shared
+                        .forwarder_shared
+                        .on_connection_closed(&meta.reversed());
                 }
             }
         }
